@@ -133,6 +133,9 @@ def strategy(tier):
             # afterwards the offender stops answering pings: engine.io
             # notices inside the next send to it and closes it from there
             'silent': st.booleans(),
+            # whether the server has emitted to the offender with a callback
+            # before (an ACK can also arrive where none was ever expected)
+            'off_cb': st.booleans(),
             # asyncio: one more bystander is in the middle of its disconnect
             # (its handler suspended) while the offender's frames arrive
             'mid_disc': st.booleans(),
@@ -218,8 +221,10 @@ def _run(case, w):
         ci, _ = w.connect(t_off, NSS[i])
         if ci is not None:
             off_sids.add(w.clients[ci]['sid'])
-            w.do(sio.emit('q', 1, to=w.clients[ci]['sid'], namespace=NSS[i],
-                          callback=lambda *a: off_cb_log.append(a)))
+            if case.get('off_cb', True):
+                w.do(sio.emit('q', 1, to=w.clients[ci]['sid'],
+                              namespace=NSS[i],
+                              callback=lambda *a: off_cb_log.append(a)))
     by = []
     for i, nss in enumerate([['/'], ['/x'], ['/x', '/c']]):
         t = w.open()
@@ -510,6 +515,21 @@ def _run(case, w):
                 raise Violation('bystander-broadcast-with-silent-offender',
                                 repr(got))
         log.clear()
+    # the application can still address the offender like anybody else (an
+    # emit with callback to each of its sessions that is still connected)
+    if w.t_alive[t_off]:
+        for sid in sorted(off_sids):
+            for ns in ('/', '/x', '/c', '/none'):
+                if sio.manager.is_connected(sid, ns):
+                    try:
+                        w.do(sio.emit('fin', 1, to=sid, namespace=ns,
+                                      callback=lambda *a: None))
+                    except Exception as e:
+                        raise Violation('emit-to-offender-raises',
+                                        'emit(to=<offender>, callback=...) '
+                                        'after its frames: %r' % (e,))
+                    labels['offender_addressed_afterwards'] = True
+        w.h.drain(w.t[t_off])
     for n, b in enumerate(by):
         w.send(b['t'], wire.EVENT, b['ns'], 50 + n, ['a', 'fin'])
         w.h.settle()
